@@ -535,5 +535,8 @@ func genC13(repo string) (string, error) {
 		fmt.Fprintf(&sb, "def broker%sBody : List String := %s\n", strings.ToUpper(m[:1])+m[1:], LeanStrList(txt))
 	}
 	fmt.Fprintf(&sb, "def brokerFamilyIteratorFields : List String := %s\n", LeanStrList(structFields(rf, "BrokerBatchShardFamilyIterator")))
+	if err := genC13Goc(repo, &sb); err != nil {
+		return "", err
+	}
 	return sb.String(), nil
 }
